@@ -29,13 +29,17 @@ enum GOpt {
     ConstLikeType,
     /// `<'a, 'b, T>` with fields `&'a T` and `&'b T`: the same field type up to lifetimes
     TwoLifetimes,
+    /// a type parameter called `H` (the name the standard Hash signature uses for its own parameter)
+    ParamH,
 }
-const GOPTS: [GOpt; 11] = [GOpt::None, GOpt::T, GOpt::LifetimeT, GOpt::ConstN, GOpt::DefaultT, GOpt::WhereT, GOpt::UnsizedTail, GOpt::Float, GOpt::Assoc, GOpt::ConstLikeType, GOpt::TwoLifetimes];
+const GOPTS: [GOpt; 12] = [GOpt::None, GOpt::T, GOpt::LifetimeT, GOpt::ConstN, GOpt::DefaultT, GOpt::WhereT, GOpt::UnsizedTail, GOpt::Float, GOpt::Assoc, GOpt::ConstLikeType, GOpt::TwoLifetimes, GOpt::ParamH];
 
 #[derive(Clone, Copy, PartialEq, Eq, Debug)]
 enum Naming {
     Neutral,
     Raw,
+    /// the type is called `Option`, its variants `Some`, `None`, `Ok`, .. (names the expansion may use unqualified)
+    Prelude,
 }
 #[derive(Clone, Copy, PartialEq, Eq, Debug)]
 enum Extra {
@@ -120,6 +124,11 @@ fn field_ty(c: &Case, vi: usize, fi: usize) -> (&'static str, Vec<&'static str>)
             0 => ("T::Item", vec!["0u8", "1u8"]),
             _ => ("Option<T::Item>", vec!["None", "Some(1u8)"]),
         },
+        GOpt::ParamH => match (vi + fi) % 3 {
+            0 => ("H", vec!["0u8", "1u8"]),
+            1 => ("Option<H>", vec!["None", "Some(1u8)"]),
+            _ => ("u8", vec!["0u8", "1u8"]),
+        },
         GOpt::TwoLifetimes => match (vi + fi) % 2 {
             0 => ("&'a T", vec!["&0u8", "&1u8"]),
             _ => ("&'b T", vec!["&0u8", "&1u8"]),
@@ -144,6 +153,7 @@ fn generics_of(g: GOpt) -> (&'static str, &'static str, &'static str) {
         GOpt::Assoc => ("<T: ::core::iter::IntoIterator>", "", "<[u8; 2]>"),
         GOpt::ConstLikeType => ("<const Option: usize>", "", "<2>"),
         GOpt::TwoLifetimes => ("<'a, 'b, T>", "", "<'static, 'static, u8>"),
+        GOpt::ParamH => ("<H>", "", "<u8>"),
     }
 }
 
@@ -164,6 +174,7 @@ fn uses_all_params(c: &Case) -> bool {
         GOpt::Assoc => tys.iter().any(|t| t.contains("T::Item")),
         GOpt::ConstLikeType => tys.contains(&"[u8; Option]"),
         GOpt::TwoLifetimes => tys.contains(&"&'a T") && tys.contains(&"&'b T"),
+        GOpt::ParamH => tys.iter().any(|t| t.contains('H')),
     }
 }
 
@@ -218,7 +229,10 @@ fn gen_options(ch: &mut Ch, thorough: bool) -> Option<Case> {
     }
     let shape = ch.of(&shapes).clone();
     let gopt = *ch.of(&GOPTS);
-    let naming = *ch.of(&[Naming::Neutral, Naming::Raw]);
+    let naming = *ch.of(&[Naming::Neutral, Naming::Raw, Naming::Prelude]);
+    if naming == Naming::Prelude && gopt != GOpt::None {
+        return None;
+    }
     let extra = *ch.of(&[Extra::None, Extra::ReprC, Extra::NonExhaustive]);
     let dev = (gopt != GOpt::None) as usize + (naming != Naming::Neutral) as usize + (extra != Extra::None) as usize;
     // raw identifiers together with a type parameter (which is then raw as well) are explored in the quick tier too
@@ -232,6 +246,7 @@ fn gen_options(ch: &mut Ch, thorough: bool) -> Option<Case> {
 fn names(c: &Case) -> (String, Vec<String>, Box<dyn Fn(usize) -> String>) {
     match c.naming {
         Naming::Neutral => ("X".to_string(), SHAPE_VNAMES.iter().map(|s| s.to_string()).collect(), Box::new(|i| fname(i))),
+        Naming::Prelude => ("Option".to_string(), vec!["Some".into(), "None".into(), "Ok".into(), "Err".into(), "Vec".into(), "Box".into()], Box::new(|i| fname(i))),
         Naming::Raw => ("r#type".to_string(), vec!["r#match".into(), "r#fn".into(), "r#loop".into(), "r#move".into(), "r#ref".into(), "r#use".into()], Box::new(|i| ["r#fn", "r#type", "r#struct", "r#impl"][i % 4].to_string())),
     }
 }
